@@ -67,26 +67,42 @@ instance (x : LgXmit) : Decidable (XmitInv x) := by unfold XmitInv; exact inferI
 theorem pow_dvd_chunk (a b : Nat) (h : a ≤ b) : 2 ^ (b + 4) = 2 ^ (b - a) * 2 ^ (a + 4) := by
   rw [← Nat.pow_add]; congr 1; omega
 
-theorem xmitB1Reneg_spec (x : LgXmit) (num szx : Nat) (hinv : XmitInv x) (hle : szx ≤ x.blkSize) :
-    (xmitB1Reneg x num szx).1.blkSize = szx ∧ (xmitB1Reneg x num szx).1.data = x.data ∧
+/-- `block.szx` after the renegotiation step: the response's size, unless that is larger than the one in use -/
+theorem xmitB1Szx_facts (x : LgXmit) (szx : Nat) :
+    xmitB1Szx x szx ≤ x.blkSize ∧ xmitB1Szx x szx ≤ szx ∧ (szx ≤ x.blkSize → xmitB1Szx x szx = szx) ∧
+    (x.blkSize < szx → xmitB1Szx x szx = x.blkSize) := by
+  unfold xmitB1Szx
+  by_cases h : szx > x.blkSize
+  · rw [if_pos h]; exact ⟨Nat.le_refl _, by omega, fun hh => by omega, fun _ => rfl⟩
+  · rw [if_neg h]; exact ⟨by omega, Nat.le_refl _, fun _ => rfl, fun hh => by omega⟩
+
+/-- for EVERY size in the response (a larger one is ignored, fix 650c3a2): the lg_xmit afterwards uses `xmitB1Szx` -/
+theorem xmitB1Reneg_spec (x : LgXmit) (num szx : Nat) (hinv : XmitInv x) :
+    (xmitB1Reneg x num szx).1.blkSize = xmitB1Szx x szx ∧ (xmitB1Reneg x num szx).1.data = x.data ∧
     (xmitB1Reneg x num szx).1.lastBlock = x.lastBlock := by
   obtain ⟨i1, i2, i3⟩ := hinv
+  obtain ⟨_, _, f3, f4⟩ := xmitB1Szx_facts x szx
   unfold xmitB1Reneg
   simp only
   by_cases hne : szx ≠ x.blkSize
-  · rw [if_pos hne, if_neg (by omega)]
-    have hal : (x.offset + 2 ^ (x.blkSize + 4)) % 2 ^ (szx + 4) = 0 := by
-      have hp := pow_dvd_chunk szx x.blkSize hle
-      have h1 : 2 ^ (szx + 4) ∣ 2 ^ (x.blkSize + 4) := ⟨2 ^ (x.blkSize - szx), by rw [hp, Nat.mul_comm]⟩
-      have h2 : 2 ^ (x.blkSize + 4) ∣ x.offset := Nat.dvd_of_mod_eq_zero i1
-      have h3 : 2 ^ (szx + 4) ∣ x.offset + 2 ^ (x.blkSize + 4) := Nat.dvd_add (Nat.dvd_trans h1 h2) h1
-      exact Nat.mod_eq_zero_of_dvd h3
-    rw [if_pos hal]
-    exact ⟨rfl, rfl, rfl⟩
+  · rw [if_pos hne]
+    by_cases hgt : szx > x.blkSize
+    · rw [if_pos hgt]
+      exact ⟨(f4 hgt).symm, rfl, rfl⟩
+    · rw [if_neg hgt]
+      have hle : szx ≤ x.blkSize := by omega
+      have hal : (x.offset + 2 ^ (x.blkSize + 4)) % 2 ^ (szx + 4) = 0 := by
+        have hp := pow_dvd_chunk szx x.blkSize hle
+        have h1 : 2 ^ (szx + 4) ∣ 2 ^ (x.blkSize + 4) := ⟨2 ^ (x.blkSize - szx), by rw [hp, Nat.mul_comm]⟩
+        have h2 : 2 ^ (x.blkSize + 4) ∣ x.offset := Nat.dvd_of_mod_eq_zero i1
+        have h3 : 2 ^ (szx + 4) ∣ x.offset + 2 ^ (x.blkSize + 4) := Nat.dvd_add (Nat.dvd_trans h1 h2) h1
+        exact Nat.mod_eq_zero_of_dvd h3
+      rw [if_pos hal]
+      exact ⟨(f3 hle).symm, rfl, rfl⟩
   · rw [if_neg hne]
     have : szx = x.blkSize := by
       apply Classical.byContradiction; intro hh; exact hne hh
-    exact ⟨this.symm, rfl, rfl⟩
+    exact ⟨by rw [f3 (by omega)]; exact this.symm, rfl, rfl⟩
 
 theorem xmitB1Next_spec (x1 : LgXmit) (room num szx : Nat) (st' : Option LgXmit) (n m s : Nat) (p : Bytes)
     (h : xmitB1Next x1 room num szx = (st', B1Out.sendNext n m s p)) :
@@ -114,14 +130,14 @@ theorem xmitB1Next_spec (x1 : LgXmit) (room num szx : Nat) (st' : Option LgXmit)
       cases h
 
 /-- client Block1 follow-up requests: whatever block message `coap_handle_response_send_block` builds carries the
-slice of the body for the NUM and SZX in its Block1 option — for EVERY response (stale, duplicated, renegotiating);
-if the response does not ask for a larger block size than the lg_xmit uses, the More bit is right as well and the
-lg_xmit afterwards uses the response's size -/
+slice of the body for the NUM and SZX in its Block1 option — for EVERY response (stale, duplicated, renegotiating to a
+smaller size, asking for a larger one); that SZX is the response's, or the one in use if the response asks for a larger
+one; if the lg_xmit is well formed the More bit is right as well and the lg_xmit afterwards uses that size -/
 theorem xmitB1Step_spec (x : LgXmit) (room : Nat) (ok : Bool) (blk : Option (Nat × Nat)) (st' : Option LgXmit)
     (n m s : Nat) (p : Bytes) (h : xmitB1Step x room ok blk = (st', B1Out.sendNext n m s p)) :
     n < nBlocks x.data.length s ∧ p = slice x.data s n ∧ 1 + p.length ≤ room ∧
-    (∃ num0, blk = some (num0, s)) ∧
-    (XmitInv x → s ≤ x.blkSize → m = more x.data.length s n ∧
+    (∃ num0 szx, blk = some (num0, szx) ∧ s = xmitB1Szx x szx) ∧
+    (XmitInv x → m = more x.data.length s n ∧
       ∃ x', st' = some x' ∧ x'.data = x.data ∧ x'.blkSize = s ∧ x'.lastBlock = some (n - 1) ∧ 1 ≤ n ∧
         x'.offset = n * 2 ^ (s + 4)) := by
   unfold xmitB1Step at h
@@ -133,7 +149,7 @@ theorem xmitB1Step_spec (x : LgXmit) (room : Nat) (ok : Bool) (blk : Option (Nat
     | some b =>
       obtain ⟨num0, szx⟩ := b
       simp only at h
-      obtain ⟨e1, e2, e3, e4, e5, e6, e7⟩ := xmitB1Next_spec _ room _ szx st' n m s p h
+      obtain ⟨e1, e2, e3, e4, e5, e6, e7⟩ := xmitB1Next_spec _ room _ _ st' n m s p h
       have hdata : (xmitB1Reneg x num0 szx).1.data = x.data := by
         unfold xmitB1Reneg
         simp only
@@ -143,27 +159,31 @@ theorem xmitB1Step_spec (x : LgXmit) (room : Nat) (ok : Bool) (blk : Option (Nat
           · split <;> rfl
         · rfl
       rw [hdata] at e3 e4
-      subst e2
-      refine ⟨e3, e4, e5, ⟨num0, rfl⟩, ?_⟩
-      intro hinv hle
-      obtain ⟨r1, r2, r3⟩ := xmitB1Reneg_spec x num0 s hinv hle
+      refine ⟨e3, e4, e5, ⟨num0, szx, rfl, e2⟩, ?_⟩
+      intro hinv
+      obtain ⟨r1, r2, r3⟩ := xmitB1Reneg_spec x num0 szx hinv
+      rw [← e2] at r1
       rw [r1, hdata] at e6
       refine ⟨by rw [e6]; exact moreIf_eq _ _ _, _, e7, r2, r1, ?_, by omega, ?_⟩
-      · show some (xmitB1Reneg x num0 s).2 = some (n - 1)
+      · show some (xmitB1Reneg x num0 szx).2 = some (n - 1)
         congr 1; omega
-      · show n * 2 ^ ((xmitB1Reneg x num0 s).1.blkSize + 4) = n * 2 ^ (s + 4)
+      · show n * 2 ^ ((xmitB1Reneg x num0 szx).1.blkSize + 4) = n * 2 ^ (s + 4)
         rw [r1]
 
 theorem div_sub_one_mul (Q c : Nat) (hd : c ∣ Q) (hc : 0 < c) : (Q / c - 1) * c = Q - c := by
   rw [Nat.sub_mul, Nat.div_mul_cancel hd, Nat.one_mul]
 
-theorem xmitB1Reneg_inv (x : LgXmit) (num szx : Nat) (hinv : XmitInv x) (hlen : x.data.length < 2 ^ 32)
-    (hle : szx ≤ x.blkSize) : XmitInv (xmitB1Reneg x num szx).1 := by
+theorem xmitB1Reneg_inv (x : LgXmit) (num szx : Nat) (hinv : XmitInv x) (hlen : x.data.length < 2 ^ 32) :
+    XmitInv (xmitB1Reneg x num szx).1 := by
   obtain ⟨i1, i2, i3⟩ := hinv
   unfold xmitB1Reneg
   simp only
   by_cases hne : szx ≠ x.blkSize
-  · rw [if_pos hne, if_neg (by omega)]
+  · rw [if_pos hne]
+    by_cases hgt : szx > x.blkSize
+    · rw [if_pos hgt]; exact ⟨i1, i2, i3⟩        -- "ignoring request to increase Block size"
+    rw [if_neg hgt]
+    have hle : szx ≤ x.blkSize := by omega
     have hp := pow_dvd_chunk szx x.blkSize hle
     have h1 : 2 ^ (szx + 4) ∣ 2 ^ (x.blkSize + 4) := ⟨2 ^ (x.blkSize - szx), by rw [hp, Nat.mul_comm]⟩
     have h2 : 2 ^ (x.blkSize + 4) ∣ x.offset := Nat.dvd_of_mod_eq_zero i1
@@ -188,11 +208,12 @@ theorem xmitB1Reneg_inv (x : LgXmit) (num szx : Nat) (hinv : XmitInv x) (hlen : 
   · rw [if_neg hne]
     exact ⟨i1, i2, i3⟩
 
-/-- the client's lg_xmit stays well formed over every response that does not ask for a larger block size -/
+/-- the client's lg_xmit stays well formed over EVERY response; its block size never grows -/
 theorem xmitB1Step_inv (x : LgXmit) (room : Nat) (ok : Bool) (blk : Option (Nat × Nat)) (x' : LgXmit)
-    (hinv : XmitInv x) (hlen : x.data.length < 2 ^ 32) (hblk : ∀ num szx, blk = some (num, szx) → szx ≤ x.blkSize)
+    (hinv : XmitInv x) (hlen : x.data.length < 2 ^ 32)
     (h : (xmitB1Step x room ok blk).1 = some x') :
-    XmitInv x' ∧ x'.data = x.data ∧ x'.blkSize ≤ x.blkSize ∧ ∃ num szx, blk = some (num, szx) ∧ x'.blkSize = szx := by
+    XmitInv x' ∧ x'.data = x.data ∧ x'.blkSize ≤ x.blkSize ∧
+      ∃ num szx, blk = some (num, szx) ∧ x'.blkSize = xmitB1Szx x szx := by
   unfold xmitB1Step at h
   cases ok with
   | false => simp only at h; cases h
@@ -201,10 +222,10 @@ theorem xmitB1Step_inv (x : LgXmit) (room : Nat) (ok : Bool) (blk : Option (Nat 
     | none => simp only at h; cases h
     | some b =>
       obtain ⟨num0, szx⟩ := b
-      have hle := hblk num0 szx rfl
+      have hle := (xmitB1Szx_facts x szx).1
       simp only at h
-      have hrs := xmitB1Reneg_spec x num0 szx hinv hle
-      have hri := xmitB1Reneg_inv x num0 szx hinv hlen hle
+      have hrs := xmitB1Reneg_spec x num0 szx hinv
+      have hri := xmitB1Reneg_inv x num0 szx hinv hlen
       generalize hr : xmitB1Reneg x num0 szx = r at h hrs hri
       obtain ⟨x1, num⟩ := r
       simp only at h hrs hri
@@ -219,7 +240,7 @@ theorem xmitB1Step_inv (x : LgXmit) (room : Nat) (ok : Bool) (blk : Option (Nat 
       · rw [if_neg hd] at h
         by_cases hlt : (num + 1) * 2 ^ (x1.blkSize + 4) < x1.data.length
         · rw [if_pos hlt] at h
-          cases ha : addBlock x1.data (num + 1) szx with
+          cases ha : addBlock x1.data (num + 1) (xmitB1Szx x szx) with
           | none => rw [ha] at h; cases h
           | some p =>
             rw [ha] at h
